@@ -7,6 +7,9 @@ CONSTANTS
   FixSessionWait = TRUE
   FixRefreshWait = TRUE
   FixProcQuit = TRUE
+  FixUpstreamQuitFirst = TRUE
+  FixSignalBeforeWait = TRUE
+  ClientQCap = 2
   NReq = 3
   SessQCap = 1
   MaxRounds = 2
